@@ -194,7 +194,7 @@ def r01_5(ctx):
     F = ctx.facts
 
     def window(r, key, short):
-        f = F.fn(key)
+        f = F.loop_form(F.fn(key))  # Option combinators (`is_none_or(|s| t >= s)`) written out as the match they abbreviate
         r.analysed(f)
 
         def canon(e):
